@@ -31,6 +31,12 @@ pub enum Dis {
     PrologueBit(usize, u8),
     PrologueLen(usize),
     PrologueEmptyVsNon,
+    /// both prologues have `len` bytes (> 65535) and differ only in the last byte
+    PrologueLongTail(usize),
+    /// the responder's prologue is the initiator's (`len` bytes) plus a tail
+    PrologueLongExtension(usize),
+    /// the responder's prologue is the initiator's plus trailing zero bytes
+    PrologueTrailingZeros(usize),
     PskBit(u8, usize),
     /// wrong pre-shared static key given to: true = the initiator, false = the responder
     StaticKey(bool),
@@ -129,6 +135,26 @@ fn apply(spec: &SessionSpec, dis: &[Dis]) -> Option<(SessionSpec, EpOverrides, S
                 } else {
                     or.prologue = Some(vec![]);
                 }
+            },
+            Dis::PrologueLongTail(len) => {
+                let base = crate::engine::expand(spec.key_seed, 7, *len);
+                let mut p = base.clone();
+                let l = p.len();
+                p[l - 1] ^= 0x80;
+                oi.prologue = Some(base);
+                or.prologue = Some(p);
+            },
+            Dis::PrologueLongExtension(len) => {
+                let base = crate::engine::expand(spec.key_seed, 7, *len);
+                let mut p = base.clone();
+                p.extend_from_slice(b"tail beyond the first 64 KiB....");
+                oi.prologue = Some(base);
+                or.prologue = Some(p);
+            },
+            Dis::PrologueTrailingZeros(n) => {
+                let mut p = spec.prologue();
+                p.extend(std::iter::repeat(0u8).take(1 + *n % 70));
+                or.prologue = Some(p);
             },
             Dis::PskBit(which, bit) => {
                 if spec.hs.psks.is_empty() {
@@ -236,8 +262,10 @@ fn oracle(c: &Case, acc: &mut Acc) -> CaseResult {
         return Ok(());
     };
     // control: without the disagreement the session completes
-    let ci = build_snow(spec, true, &EpOverrides::default(), &Instr::none()).map_err(|x| Fail::setup(format!("control build {name}: {}", e(&x))))?;
-    let cr = build_snow(spec, false, &EpOverrides::default(), &Instr::none()).map_err(|x| Fail::setup(format!("control build {name}: {}", e(&x))))?;
+    // control: both sides with the initiator's view of the context
+    let ctl_ov = EpOverrides { prologue: oi.prologue.clone(), ..Default::default() };
+    let ci = build_snow(spec, true, &ctl_ov, &Instr::none()).map_err(|x| Fail::setup(format!("control build {name}: {}", e(&x))))?;
+    let cr = build_snow(spec, false, &ctl_ov, &Instr::none()).map_err(|x| Fail::setup(format!("control build {name}: {}", e(&x))))?;
     let (ctl, _, _) = run_pair(ci, cr, spec);
     if !ctl {
         return Err(Fail::setup(format!("{name}: control session (no disagreement) does not complete")));
@@ -306,6 +334,7 @@ fn kinds_for(spec: &SessionSpec, k: u64) -> Vec<Dis> {
         Dis::PrologueBit(k as usize, (k % 8) as u8),
         Dis::PrologueLen(k as usize),
         Dis::PrologueEmptyVsNon,
+        Dis::PrologueTrailingZeros(k as usize),
         Dis::PskBit((k % 5) as u8, (k % 256) as usize),
         Dis::StaticKey(true),
         Dis::StaticKey(false),
@@ -332,6 +361,18 @@ pub fn run(ctx: &Ctx) {
             }
         }
     }
+    // very long prologues (hashing them is the expensive part, so only on a rotating subset of names)
+    for (ni, hs) in names.iter().enumerate() {
+        if ni % ctx.tier.pick(12, 2) != (ctx.seed as usize) % ctx.tier.pick(12, 2) {
+            continue;
+        }
+        let suite = suites[(ni * 5) % suites.len()];
+        let spec = SessionSpec::simple(hs.clone(), suite, mix(ctx.seed, 9000 + ni as u64));
+        for len in [65535usize, 65536, 70000, 131072] {
+            cases.push(Case { spec: spec.clone(), dis: vec![Dis::PrologueLongTail(len.max(65536))] });
+            cases.push(Case { spec: spec.clone(), dis: vec![Dis::PrologueLongExtension(len)] });
+        }
+    }
     ctx.run_list("single_disagreements", &cases, false, oracle);
     let names = std::sync::Arc::new(names);
     let seed = ctx.seed;
@@ -340,7 +381,7 @@ pub fn run(ctx: &Ctx) {
         ctx.tier.pick(10_000, 150_000),
         || {
             let names = names.clone();
-            (any::<u16>(), 0usize..24, any::<u64>(), prop::collection::vec((0usize..14, any::<u64>()), 1..4), 0usize..3).prop_map(move |(ni, si, ks, ds, pl)| {
+            (any::<u16>(), 0usize..24, any::<u64>(), prop::collection::vec((0usize..15, any::<u64>()), 1..4), 0usize..3).prop_map(move |(ni, si, ks, ds, pl)| {
                 let suites = all_suites();
                 let mut spec = SessionSpec::simple(names[pick(ni, names.len())].clone(), suites[si], mix(seed, ks));
                 spec.prologue_len = [0usize, 7, 150][pl];
@@ -349,7 +390,7 @@ pub fn run(ctx: &Ctx) {
                     let d = kinds_for(&spec, r % 1000)[k].clone();
                     // at most one name-level disagreement and one prologue-level one
                     let name_level = |x: &Dis| matches!(x, Dis::ModOrder | Dis::CustomNameByte(..) | Dis::Hash | Dis::Cipher | Dis::SiblingPattern);
-                    let pro_level = |x: &Dis| matches!(x, Dis::PrologueBit(..) | Dis::PrologueLen(_) | Dis::PrologueEmptyVsNon);
+                    let pro_level = |x: &Dis| matches!(x, Dis::PrologueBit(..) | Dis::PrologueLen(_) | Dis::PrologueEmptyVsNon | Dis::PrologueTrailingZeros(_) | Dis::PrologueLongTail(_) | Dis::PrologueLongExtension(_));
                     if (name_level(&d) && dis.iter().any(name_level)) || (pro_level(&d) && dis.iter().any(pro_level)) || dis.contains(&d) {
                         continue;
                     }
